@@ -61,7 +61,8 @@ class C20(Prop):
     HARNESS_BINS = ("c20",)
     KF = {}
     RULE = ("rule files with include directives are materialised in a directory tree under .work (trees, DAGs with "
-            "shared leaves, chains of 14..19 nested includes, cycles of length 1..4, missing files, directories, "
+            "shared leaves, the same directive text in files of different directories meaning different (or the same) "
+            "files within one graph and across calls, chains of 14..19 nested includes, cycles of length 1..4, missing files, directories, "
             "non-UTF-8 and unparsable files, `../`, `./`, detours through existing and missing directories, double and "
             "trailing slashes, absolute paths), compiled by the real compiler in a child process in the three "
             "resolution modes (file system, include callback given as a table with decoy entries, includes disabled), "
@@ -272,8 +273,65 @@ class C20(Prop):
         return {"mode": mode, "shape": shape, "cwd": cwd, "dirs": all_dirs, "files": files, "cb": cb, "calls": calls,
                 "scan": scan, "use_cb": use_cb}
 
+    def gen_samename(self, rng):
+        """The same directive text in files of different directories: `a/main.yar` and `b/main.yar` both say
+        `include "common.yar"` (or `lib/x.yar`, `../shared.yar`) and mean different files — or the same file, for
+        contrast — within one graph and across several calls on one compiler.  Resolution must be relative to the
+        including file every time: a resolution remembered by directive text is wrong here."""
+        toks = ["tokA", "tokB", "tokC"]
+        dirs = rng.choice([[["a"], ["b"]], [["a"], ["b"], ["c"]], [["a"], ["a", "b"]], [["a"], ["b"], ["a", "lib"], ["b", "lib"]]])
+        tops = [d for d in dirs if d[-1] != "lib"]
+        inc = rng.choice(["common.yar", "./common.yar", "lib/x.yar", "../shared.yar", "common.yar"])
+        if inc.startswith("lib/"):
+            dirs = sorted({tuple(d) for d in dirs} | {tuple(d + ["lib"]) for d in tops})
+            dirs = [list(d) for d in dirs]
+        files, k = [], 0
+        same_target = inc.startswith("../") and all(len(d) == 1 for d in tops)   # ../shared.yar from a/ and b/: one file
+        for d in tops:
+            main_cs = []
+            if rng.chance(1, 3):
+                main_cs.append({"rule": self.gen_rule(rng, "m%d" % k, [], [], toks)})
+            main_cs.append({"inc": inc})
+            # the rule of main refers to the rule its own common file defines
+            main_cs.append({"rule": self.gen_rule(rng, "u%d" % k, ["c%d" % (0 if same_target else k)], [], toks)})
+            files.append({"path": d + ["main.yar"], "doc": {"t": "text", "cs": main_cs}})
+            if not inc.startswith("../"):
+                tgt = d + inc.replace("./", "").split("/")
+                files.append({"path": tgt, "doc": {"t": "text", "cs": [{"rule": self.gen_rule(rng, "c%d" % k, [], [], toks)}]}})
+            k += 1
+        if inc.startswith("../"):
+            seen = set()
+            for d in tops:
+                tgt = tuple(d[:-1] + ["shared.yar"])
+                if tgt not in seen:
+                    seen.add(tgt)
+                    files.append({"path": list(tgt), "doc": {"t": "text", "cs": [
+                        {"rule": self.gen_rule(rng, "c%d" % (0 if same_target else tops.index(d)), [], [], toks)}]}})
+        for f in files:
+            for c in f["doc"]["cs"]:
+                if "rule" in c:
+                    c["rule"]["bad"] = False
+        style = rng.below(3)
+        calls = []
+        if style == 0:      # one graph: a top-level file includes every main
+            files.append({"path": ["top.yar"], "doc": {"t": "text", "cs": [{"inc": "/".join(d + ["main.yar"])} for d in tops]}})
+            calls.append({"kind": "file", "path": "top.yar", "ns": rng.choice([None, "ns1"])})
+        else:               # several calls on one compiler, same or different namespaces
+            nss = [None] * len(tops) if style == 1 else [None, "ns1", "ns2"][:len(tops)]
+            for d, ns in zip(tops, nss):
+                if rng.chance(1, 4):
+                    calls.append({"kind": "str", "doc": {"t": "text", "cs": [{"inc": "/".join(d + ["main.yar"])}]}, "ns": ns})
+                else:
+                    calls.append({"kind": "file", "path": "/".join(d + ["main.yar"]), "ns": ns})
+        return {"mode": "fs", "shape": "samename", "cwd": [], "dirs": dirs, "files": files, "cb": [], "calls": calls,
+                "scan": " ".join(t for t in toks if rng.chance(1, 2)), "use_cb": False}
+
     def generate(self, ctx, rng, n):
-        return [self.gen_case(rng.fork("c%d" % i)) for i in range(n)]
+        out = []
+        for i in range(n):
+            r = rng.fork("c%d" % i)
+            out.append(self.gen_samename(r) if i % 8 == 3 else self.gen_case(r))
+        return out
 
     def budget(self, tier):
         return 300 if tier == "quick" else 6000
